@@ -4,6 +4,7 @@
 use vstd::prelude::*;
 use std::collections::{HashMap, HashSet};
 use std::fmt;
+use std::sync::Arc;
 verus! {
 use vstd::std_specs::hash::*;
 use vstd::std_specs::iter::*;
@@ -16,6 +17,12 @@ pub broadcast axiom fn ax_string_of_view(s: Seq<char>)
 pub broadcast axiom fn ax_string_ext(x: String)
     ensures (#[trigger] string_of(x@)) == x;
 pub open spec fn sk(q: &str) -> String { string_of(q@) }
+// the same for string slices: a &str value is determined by its characters
+pub uninterp spec fn str_of(s: Seq<char>) -> &'static str;
+pub broadcast axiom fn ax_str_of_view(s: Seq<char>)
+    ensures (#[trigger] str_of(s))@ == s;
+pub broadcast axiom fn ax_str_ext(x: &str)
+    ensures #[trigger] str_of(x@) == x;
 
 pub broadcast axiom fn ax_contains_str_key<V>(m: Map<String, V>, q: &str)
     ensures #[trigger] contains_borrowed_key::<String, V, str>(m, q) <==> m.contains_key(sk(q));
@@ -41,7 +48,7 @@ pub broadcast axiom fn ax_bridge_ok2()
     ensures #[trigger] bridge_ok::<String, String>();
 pub broadcast axiom fn ax_to_string_string(s: &String, r: String)
     ensures #[trigger] vstd::string::to_string_from_display_ensures::<String>(s, r) <==> r == *s;
-pub broadcast group bridge { ax_to_string_string, ax_set_contains_str, ax_sets_differ_str, ax_bridge_ok, ax_bridge_ok2, ax_bkey_str, ax_bkey_string,
+pub broadcast group bridge { ax_to_string_string, ax_str_of_view, ax_str_ext, ax_set_contains_str, ax_sets_differ_str, ax_bridge_ok, ax_bridge_ok2, ax_bkey_str, ax_bkey_string,
     ax_string_of_view, ax_string_ext, ax_contains_str_key, ax_maps_str_key, ax_str_key_removed, ax_key_model }
 
 // ---- std functions vstd has no specification for ----
